@@ -66,6 +66,8 @@ type spec struct {
 	code  uint64
 	wrap  string
 	k     int // messages the handler sends before failing (streaming shapes)
+	wbuf  int // client and server writer buffer size (0 = default)
+	req   int // request payload size (0 = minimal)
 }
 
 func textName(t string) string {
@@ -78,7 +80,11 @@ func textName(t string) string {
 }
 
 func (s spec) String() string {
-	return fmt.Sprintf("%s msg=%s code=%d wrap=%s k=%d", s.shape, textName(s.text), s.code, s.wrap, s.k)
+	x := ""
+	if s.wbuf != 0 || s.req != 0 {
+		x = fmt.Sprintf(" wbuf=%d req=%d", s.wbuf, s.req)
+	}
+	return fmt.Sprintf("%s msg=%s code=%d wrap=%s k=%d%s", s.shape, textName(s.text), s.code, s.wrap, s.k, x)
 }
 
 // a hand-written drpc.Description for the mux scenarios (what generated code provides)
@@ -101,7 +107,7 @@ func (*impl) Unary(ctx context.Context, in *[]byte) (*[]byte, error) {
 
 func scenario(sp spec) *mc.Scenario {
 	name := fmt.Sprintf("error[%s]", sp)
-	cfg := wl.Config{Pipe: tr.Options{Cap: -1}}
+	cfg := wl.Config{Pipe: tr.Options{Cap: -1}, WriterBuf: sp.wbuf}
 	body := func() {
 		var want error
 		handler := func(env *wl.Env, stream drpc.Stream, rpc string) error {
@@ -159,7 +165,7 @@ func scenario(sp spec) *mc.Scenario {
 		vs.Go("client", func() {
 			defer func() { done = true }()
 			ctx := context.Background()
-			req := enc.Payload('c', 0, 0, enc.MinPayload)
+			req := enc.Payload('c', 0, 0, max(enc.MinPayload, sp.req))
 			switch sp.shape {
 			case "unary", "ok":
 				var out []byte
@@ -297,6 +303,24 @@ func basePlans(tier string) []mc.Plan {
 					}
 				}
 			}
+		}
+	}
+	// writer buffers so small that every frame is written through, or that frames end exactly at
+	// the buffer's edge; and request sizes that make the buffered invoke + message end around the
+	// default buffer's edge (whether "nothing is buffered" is known correctly decides what the
+	// first receive's flush does)
+	for _, wb := range []int{1, 4, 16, 64} {
+		for _, shape := range []string{"unary", "cstream", "sstream", "bidi", "ok"} {
+			k := 0
+			if shape == "sstream" || shape == "bidi" {
+				k = 1 // (a unary caller only ever sees the first thing the handler produces)
+			}
+			ps = append(ps, mc.Plan{Scen: scenario(spec{shape: shape, text: "quota exceeded", code: 1<<63 + 7, wrap: "none", k: k, wbuf: wb}), Bounds: []int{0, 1}})
+		}
+	}
+	for n := 4040; n <= 4110; n++ {
+		for _, shape := range []string{"unary", "ok"} {
+			ps = append(ps, mc.Plan{Scen: scenario(spec{shape: shape, text: "quota exceeded", code: 1<<63 + 7, wrap: "none", req: n}), Bounds: []int{0}})
 		}
 	}
 	for _, shape := range []string{"unknown", "undecodable", "ok"} {
